@@ -579,6 +579,7 @@ void ref_run(uint64_t max_events, uint64_t extra_events, double extra_time)
 	for(unsigned i = 0; i < n; ++i) {
 		ref_me = i;
 		current_lp = &ref_lps[i];
+		ref_state_ptr[i] = NULL; /* an LP that registers no state must not inherit the pointer of an earlier reference run */
 		vm_process(i, 0.0, LP_INIT, NULL, 0, NULL);
 		struct ref_lp *L = &REF.lp[i];
 		L->state = ref_state_ptr[i];
